@@ -25,7 +25,7 @@ def specs(tier):
     out = []
     for order in al['orders']:
         for seq in sequences(POOL, 0, al['maxlen']):
-            for form in ('numeric', 'named', 'species_string', 'species_string_spaced'):
+            for form in ('numeric', 'named', 'species_string', 'species_string_spaced') + (('blank_species_string',) if not seq else ()):
                 out.append(dict(kind='massaction', reactants=seq, form=form, order=order))
         for kind in HILLS:
             for s1 in POOL:
@@ -43,6 +43,8 @@ def build(spec):
         pd = {'k': 'kf'} if spec['form'] != 'numeric' else {'k': 1.0}
         if spec['form'] == 'species_string':
             pd['species'] = '*'.join(spec['reactants'])
+        if spec['form'] == 'blank_species_string':
+            pd['species'] = ' '          # order zero written as a blank species string: handled by the general mass-action class
         if spec['form'] == 'species_string_spaced':
             # the same product written with blanks around the stars (and around the whole string)
             pd['species'] = ' * '.join(spec['reactants'])
